@@ -98,11 +98,16 @@ def playback(crate, overlays, harness, timeout_s=1500):
             cmd = f'ulimit -v {14 * 1024 * 1024}; exec timeout {timeout_s} cargo kani -p {crate} --target-dir {TARGETS[crate]} -Z stubbing -Z concrete-playback --concrete-playback=print --harness {harness}'
             p = subprocess.run(['bash', '-c', cmd], cwd=KSNAP, env=env, capture_output=True, text=True)
             out = p.stdout + p.stderr
-            m = re.search(r'let concrete_vals: Vec<Vec<u8>> = vec!\[(.*?)\n\s*\];', out, re.S)
-            if not m:
+            ms = re.findall(r'let concrete_vals: Vec<Vec<u8>> = vec!\[(.*?)\n\s*\];', out, re.S)
+            if not ms:
                 return None, out[-2500:]
-            vals = [[int(x) for x in v.split(',') if x.strip()] for v in re.findall(r'vec!\[([\d,\s]*)\]', m.group(1))]
-            return vals, out[-500:]
+            # Kani prints one playback test per failed check AND per satisfied kani::cover!: return every candidate, the caller replays them in turn
+            cands = []
+            for body in ms:
+                vals = [[int(x) for x in v.split(',') if x.strip()] for v in re.findall(r'vec!\[([\d,\s]*)\]', body)]
+                if vals not in cands:
+                    cands.append(vals)
+            return cands, out[-500:]
         finally:
             shutil.rmtree(KSNAP, ignore_errors=True)
 
